@@ -513,18 +513,14 @@ theorem c01_defined_counterexample :
       (∀ ρ : String → K, ¬ srcFeasible m ρ = true) ∧ (∀ ρ : String → K, linFeasible lm ρ = true) :=
   defined_needed
 
-/-- **Finite literals do not replace the definedness hypothesis** (FINDING, real code HEAD 8a8f98f): in
-`c: 0 * (x / 0) ≤ 1` every literal is finite; since rooc 9f62afd `simplify` keeps the product, but
-`Exp::linearize` on a product with constant factor `0` returns `0` without visiting the other factor, so the
-division by zero is never reported: the row is `0 ≤ 1`, the linear model accepts every assignment, the source
-constraint has no value at any. -/
-theorem c01_defined_finite_counterexample :
-    ∃ (m : Model (Ext K)) (b : BoundsMap (Ext K)) (d : List (DomVar (Ext K))) (lm : LinModel (Ext K)),
-      linearizeWith m b d = .ok lm ∧ DomRel m d ∧ BoxEnforced b d ∧
-      (∀ c ∈ m.constraints, c.isAssert = false ∧ FG true (inScope d) c.lhs ∧ FG true (inScope d) c.rhs ∧
-        finiteLits c.lhs = true ∧ finiteLits c.rhs = true) ∧
-      (∀ ρ : String → K, ¬ srcFeasible m ρ = true) ∧ (∀ ρ : String → K, linFeasible lm ρ = true) :=
-  defined_needed_finite
+/-- **Regression for a repaired finding** (found with these theorems on HEAD 8a8f98f, fixed by rooc 5a25b35): in
+`min x s.t. c: 0 * (x / 0) ≤ 1` every literal is finite and the constraint has no value at any assignment.
+`simplify` keeps the product since rooc 9f62afd, but `Exp::linearize` on a product with constant factor `0`
+used to return `0` without visiting the other factor: the row was `0 ≤ 1`.  Now a factor that may be undefined
+is still lowered, and the compilation is rejected. -/
+theorem c01_zero_factor_regression :
+    linearizeWith (exUndefDiv : Model (Ext K)) [] (exUndefDiv : Model (Ext K)).domain = .error .divisionByZero :=
+  exUndefDiv_error
 
 /-- a decidable sufficient condition for the definedness hypothesis: finite literals, non-zero literal divisors,
 non-empty `min`/`max`. -/
